@@ -1,7 +1,7 @@
 """C04 - ignored patterns are skipped exactly at token boundaries."""
 from contracts import core, segments
 from pyvc.report import Report
-from .common import run_fragments
+from .common import run_fragments, dependency_layer
 from . import wiring
 
 
@@ -20,4 +20,5 @@ def run(tier, seed):
     rep.assumptions.append('second sentence of the statement (lengthening an ignorable run changes no value) is a two-run property of whole grammars: '
                            'it follows on paper from the leaf contract + C01 under its side conditions and gets no obligation')
     rep.assumptions.append('A-schematic: wiring obligations are exhaustive over the stated shape family only')
+    dependency_layer(rep, tier)
     return rep.finish()
